@@ -308,6 +308,24 @@ fn mk_probes<T: Repr + Send + Sync + 'static>(
     }
 }
 
+/// sources that react to being told to stop (PuppetSpec::on_stop)
+fn wire_stop_hooks(puppets: &[Box<dyn PuppetCtl>]) {
+    for p in puppets.iter() {
+        if let Some((what, j)) = p.on_stop() {
+            if let Some(other) = puppets.iter().find(|q| q.id() == j && q.id() != p.id()) {
+                let other = other.clone_ctl();
+                p.set_stop_hook(Arc::new(move || {
+                    if what == 0 {
+                        other.greet_all();
+                    } else {
+                        other.emit_all();
+                    }
+                }));
+            }
+        }
+    }
+}
+
 /// Build a topology. `pspecs[i]` / `lens[i]` describe puppet i; for Flatten puppet 0 is the outer
 /// and puppets 1.. are the inners; for Tree puppets are the leaves in left-to-right order (an
 /// inner Flatten node takes one puppet for its outer first).
@@ -455,6 +473,7 @@ pub fn build(topo: &Topo, pspecs: &[PuppetSpec], lens: &[usize], probe_specs: &[
         },
     }
     puppets.sort_by_key(|p| p.id());
+    wire_stop_hooks(&puppets);
     Built {
         world,
         topo: topo.clone(),
@@ -591,5 +610,5 @@ pub fn gen_puppet_spec(c: &mut Chooser, allow_late: bool, modes: &[Mode], fins: 
         fin = Fin::End;
     }
     let burst = if mode == Mode::Listen && c.chance(1, 3) { 1 + c.choose(3) } else { 0 };
-    PuppetSpec { mode, late, fin, burst, eager_end: false, per_pull: 1 }
+    PuppetSpec { mode, late, fin, burst, eager_end: false, per_pull: 1, on_stop: None }
 }
